@@ -94,9 +94,10 @@ var sessFamilies = map[string]SessFamily{
 	"gensort":     {"gensort", "MC_GenSort", []string{"C15"}, false},
 	"gensep":      {"gensep", "MC_GenSep", []string{"C13", "C01"}, false},
 	"genaddr":     {"genaddr", "MC_GenAddr", []string{"C11"}, false},
-	"boundary":    {"boundary", "MC_Boundary", []string{"C19", "C04", "nodrift"}, false},
+	"boundary":    {"boundary", "MC_Boundary", []string{"C19", "C04", "C03", "C20", "nodrift"}, false},
 	"custom":      {"custom", "MC_Custom", []string{"C17"}, false},
 	"customplan":  {"customplan", "MC_CustomPlan", []string{"C17"}, false},
+	"planto":      {"planto", "MC_PlanTo", []string{"C06"}, false},
 	"custombad":   {"custombad", "MC_CustomBad", []string{"C17"}, false},
 	"custombadto": {"custombadto", "MC_CustomBadTo", []string{"C17"}, false},
 	// the same scripts over seeded random descriptors (VERIF_SEED)
